@@ -1,7 +1,7 @@
 -------------------------------- MODULE GgufMut --------------------------------
 (* C10 -- untrusted model files.  A GGUF file is a stream of fields; the decoder  *)
 (* trusts none of them.  This module names the fields of a small base file (3     *)
-(* key/values, 2 tensors), the value classes every length / count / type / shape  *)
+(* key/values + a declared parameter count, 2 tensors), the value classes every length / count / type / shape  *)
 (* / offset field is driven through, and enumerates single and double mutations, *)
 (* truncations, versions and byte orders for the replay harness.  The only        *)
 (* acceptable outcomes are defined in Trace_GgufDecode: a decoded model or an     *)
@@ -17,6 +17,7 @@ Fields ==
    kv0_keylen |-> Len64, kv0_type |-> Type32, kv0_strlen |-> Len64,
    kv1_keylen |-> Len64, kv1_type |-> Type32, kv1_arrtype |-> Type32, kv1_arrcount |-> Len64, kv1_s0len |-> Len64,
    kv2_keylen |-> Len64, kv2_type |-> Type32, kv2_value |-> {"0", "1", "3", "2^31", "2^32-1"},
+   kv3_type |-> {"4", "8", "11", "12"},     \* general.parameter_count declared in another type (value written in that type)
    t0_namelen |-> Len64, t0_dims |-> {"0", "1", "4", "5", "2^16", "2^32-1"}, t0_shape0 |-> {"0", "2^32", "2^63", "2^64-1"},
    t0_kind |-> {"1", "2", "31", "2^32-1"}, t0_offset |-> {"1", "2^63", "2^64-1"},
    t1_namelen |-> Len64, t1_dims |-> {"0", "4", "2^32-1"}, t1_kind |-> {"2", "31"}, t1_offset |-> {"1", "2^63-1", "2^64-1"},
